@@ -63,6 +63,12 @@ func ruleEANCheckValue(c *Ctx) {
 		}
 		k++
 		content, sum := call.Common().Args[1], call.Common().Args[3]
+		// the value read off the very string that is handed over (whatever way it was completed)
+		if ok, why := isLastCharDigitValue(c, content, sum); ok && lastCharReadGuarded(c.P, fn, content, sum) {
+			c.Check(R, fmt.Sprintf("ean.EncodeWithColor/ctor#%d/path#1", k), call.Pos(), true, "checksum == RuneToInt(last character of content)", why)
+			c.Check(R, fmt.Sprintf("ean.EncodeWithColor/ctor#%d/path#2", k), call.Pos(), true, "checksum == RuneToInt(last character of content)", why)
+			return
+		}
 		cases := pairCases(content, sum)
 		if hc := helperPairCases(c.P, fn, call, content, sum); hc != nil {
 			cases = hc
@@ -1197,4 +1203,19 @@ func condAtLen(cd *Cond, name string, L int64) (holds, ok bool) {
 		}
 	}
 	return evalCond(cd, bv, nil), true
+}
+
+// lastCharReadGuarded: where the last character of content is read (the RuneToInt call sum), content
+// is known to be non-empty - the way there implies len(content) >= 1 (an unguarded content[len-1]
+// panics for the empty string).
+func lastCharReadGuarded(p *Prog, fn *ssa.Function, content, sum ssa.Value) bool {
+	call, ok := sum.(*ssa.Call)
+	if !ok || call.Parent() != fn {
+		return false
+	}
+	n := NewNormer(p)
+	n.Bind[content] = "content"
+	reach := n.ReachCond(fn, nil, call.Block())
+	imp, _, _ := CondRelation(reach, MustRefCond("len(content) >= 1"))
+	return imp
 }
